@@ -232,7 +232,7 @@ def run_check(spec, tier='quick', seed=0, jobs=None, keep=False, verbose=True):
     try:
         overlay = os.path.join(work, 'overlay')
         extra = spec.generate(tier) if hasattr(spec, 'generate') else {}
-        pkgs = R.build_overlay(overlay, spec.HARNESS_FILES, extra)
+        pkgs = R.build_overlay(overlay, spec.HARNESS_FILES, extra, getattr(spec, 'CLOCK_PKGS', ()))
         load_pkgs = sorted(set(pkgs) | set(getattr(spec, 'EXTRA_PKGS', [])))
         jpath = os.path.join(work, 'ssa.json')
         inits = [x for x in getattr(spec, 'INITS', '').split(',') if x]
@@ -530,7 +530,7 @@ def replay_file(path):
     try:
         overlay = os.path.join(work, 'overlay')
         extra = spec.generate('quick') if hasattr(spec, 'generate') else {}
-        R.build_overlay(overlay, spec.HARNESS_FILES, extra)
+        R.build_overlay(overlay, spec.HARNESS_FILES, extra, getattr(spec, 'CLOCK_PKGS', ()))
         res = native_replay(overlay, work, d['pkg'], [{'harness': d['harness'], 'args': d['args'], 'vector': d['vector']}])
         print(json.dumps(res[0], indent=1))
         r = res[0]
